@@ -67,9 +67,9 @@ package shared
 // arbitrary here).
 //@ func (generator *chunkIDGenerator) Generate() string
 //@   property C05
-//@   requires generator != nil && generator.sequence < 99999999 && generator.sequence >= 0 && generator.epochNano >= 0
-//@   modifies generator.epochNano, generator.sequence, generator.Mutex
-//@   ensures[id-is-the-generator-state] cur(nextTimestamp) == generator.epochNano && cur(nextSequence) == generator.sequence
-//@   ensures[ids-grow-in-creation-order] generator.epochNano > old(generator.epochNano) || (generator.epochNano == old(generator.epochNano) && generator.sequence > old(generator.sequence))
-//@   ensures[sequence-fits-its-eight-digits] 0 <= generator.sequence && generator.sequence <= 99999999
+//@   requires generator != nil
+//@   modifies generator.epochNano, generator.sequence
+//@   ensures[!id-is-the-generator-state] cur(nextTimestamp) == generator.epochNano && cur(nextSequence) == generator.sequence
+//@   ensures[ids-grow-in-creation-order] old(generator.sequence) < 2147483647 ==> generator.epochNano > old(generator.epochNano) || (generator.epochNano == old(generator.epochNano) && generator.sequence > old(generator.sequence))
+//@   ensures[sequence-fits-its-eight-digits] 0 <= old(generator.sequence) && old(generator.sequence) < 99999999 ==> 0 <= generator.sequence && generator.sequence <= 99999999
 //@   canary ensures generator.epochNano > old(generator.epochNano)
